@@ -77,6 +77,13 @@ TOPO = {
     "t2": dict(_COMMON, devices={"bd_trough": _TROUGH, "bd_plunger": _PLUNGER,
                                  "bd_lock": {"entrance": "s_lock_entrance", "capacity": 2, "coil": "c_lock", "target": "playfield",
                                              "eject_timeout": 4.0, "shot": True}}, balls={"bd_trough": 2}),
+    "t2b": dict(_COMMON, devices={"bd_trough": _TROUGH, "bd_plunger": _PLUNGER,
+                                  "bd_lock": {"entrance": "s_lock_entrance", "capacity": 2, "coil": "c_lock", "target": "playfield",
+                                              "eject_timeout": 4.0, "shot": True}}, balls={"bd_trough": 2}, events=["release_lock"]),
+    "t6": dict(_COMMON, devices={"bd_trough": _TROUGH, "bd_plunger": _PLUNGER,
+                                 "bd_lock": {"entrance": "s_lock_entrance", "capacity": 2, "coil": "c_lock", "target": "playfield",
+                                             "eject_timeout": 4.0, "shot": True, "holds": True}}, balls={"bd_trough": 3},
+               events=["release_hold"]),
     "t3": dict(_COMMON, devices={"bd_trough": _TROUGH, "bd_plunger": _PLUNGER,
                                  "bd_saucer": {"switches": ["s_saucer"], "coil": "c_saucer", "target": "playfield", "eject_timeout": 2.0,
                                                "shot": True}}, balls={"bd_trough": 2}),
@@ -95,10 +102,13 @@ SCRIPTS = {
     "full-trough": ("t5", {"ball_devices": {"bd_trough": {"ball_switches": "s_t1, s_t2"}},
                            "virtual_platform_start_active_switches": "s_t1, s_t2, s_outhole",
                            "game": {"allow_start_with_ball_in_drain": True}}, [["start"], ["drain"]]),
+    "stale-lock-request": ("t2b", None, [["event", "release_lock"], ["start"], ["add"], ["add"], ["drain"], ["drain"], ["drain"]]),
+    "held-balls": ("t6", None, [["start"], ["shoot", "bd_lock"], ["add"], ["shoot", "bd_lock"], ["add"], ["shoot", "bd_lock"],
+                                ["event", "release_hold"], ["drain"], ["drain"], ["drain"]]),
     "two-attempts": ("t1", {"ball_devices": {"bd_plunger": {"max_eject_attempts": 2}}}, [["start"], ["drain"]]),
 }
 QUICK_SCRIPTS = ("one-ball-game", "two-balls-in-play", "mechanical-plunger", "lock-shot", "saucer-shot", "plunger-lane-return",
-                 "over-request", "outhole", "full-trough")
+                 "over-request", "outhole", "full-trough", "stale-lock-request", "held-balls")
 MAX_REST_STEPS = 400
 
 
@@ -116,7 +126,8 @@ class BallDriver:
         Races.flip, Races.count, Races.flipped = False, 0, 0
         topo, patches, self.script = SCRIPTS[self.script_name]
         self.max_attempts = {d: (c.get("max_eject_attempts", 0)) for d, c in ((patches or {}).get("ball_devices") or {}).items()}
-        self.max_adds = 2 if self.script_name == "over-request" else 1
+        self.max_adds = 2 if self.script_name in ("over-request", "stale-lock-request", "held-balls") else 1
+        self.events_used = 0
         self.sys = System("c04", TOPO[topo].get("config", topo) + ".yaml", patches=patches)
         self.m = self.sys.machine
         self.loop = self.sys.loop
@@ -128,6 +139,7 @@ class BallDriver:
         self.drains = 0
         self.ev = []
         self.devs = []
+        self.started = False
         self._races = 0
         self._done = False
         self.m.events.add_handler("ball_started", self._on_ball_started)
@@ -169,7 +181,9 @@ class BallDriver:
         for d, c in self.w.dev.items():
             if c.get("mechanical") and self.w.at[d] > 0 and d not in self.w.kicks:
                 out += [["plunge", d, "ok"], ["plunge", d, "fallback"]]
-        if self.m.game is None and self.pos == 0:
+        if self.events_used < 2:
+            out += [["event", e] for e in self.w.spec.get("events", [])]
+        if self.m.game is None and not self.started:
             out.append(["start"])
         if self.m.game is not None and self.adds < self.max_adds and self.m.game.balls_in_play < self.w.total + self.max_adds - 1:
             out.append(["add"])
@@ -260,7 +274,12 @@ class BallDriver:
             if choice[2] != "ok":
                 self.stat("eject_" + choice[2])
             self.w.resolve(choice[2])
+        elif k == "event":
+            self.events_used += 1
+            self.stat("control_events")
+            self.m.events.post(choice[1])
         elif k == "start":
+            self.started = True
             self.stat("starts")
             self.m.switch_controller.process_switch("s_start", 1, True)
             self.m.switch_controller.process_switch("s_start", 0, True)
@@ -397,7 +416,8 @@ class BallDriver:
             # requests: one per ball start plus the added ones; a request beyond the balls of the machine waits for a drain;
             # only drains MPF has recognised end a request (a drain it took for a returning ball is simply served again)
             want = min(self.requested + self.adds - self.drains_seen, w.total)
-            if w.loose + waiting_for_player < want:
+            held = sum(w.at[n] for n, c in self.w.dev.items() if c.get("holds"))     # a ball a ball_hold keeps is where it should be
+            if w.loose + waiting_for_player + held < want:
                 desc = desc or self.describe()
                 self.violate("C05:request-not-delivered", "at rest after %r: %d ball(s) were requested for the playfield (%d ball starts, %d "
                              "added), MPF has seen %d drain, the machine has %d balls, but only %d are on the playfield (%d wait for the "
@@ -410,7 +430,7 @@ class BallDriver:
         self.stats[name] = self.stats.get(name, 0) + n
 
     def violate(self, sig, what):
-        self.violations.append(("%s[%s]" % (sig, "+".join(sorted(self.devs))), "%s  [history: %s]" % (what, self.hist)))
+        self.violations.append(("%s@%s[%s]" % (sig, self.script_name, "+".join(sorted(self.devs))), "%s  [history: %s]" % (what, self.hist)))
 
     def _errors(self, where):
         errs = self.loop.unhandled()
